@@ -161,7 +161,7 @@ CHECKS = {
         design_ref='DESIGN.md section 5, C19',
         note=('Trusted: Coq kernel + vm_compute; residue graph (degree, first neighbour, protein flag) taken from the real '
               'make_residue_graph; the post-repair clause (atoms of the requested block) is covered by C04, not here; '
-              'parse/format round trip validated, not proved.'),
+              'the parse/format round trip is proved for well-formed specifications (spelled_request_reads_back).'),
         technique='Coq proof (characterisation of matching, list reasoning for marks and reports) + in-Coq correspondence with an independent parse oracle'),
     'C10': dict(
         category='proof',
@@ -249,9 +249,12 @@ CHECKS = {
               'such a chain over the pattern\'s automorphism group is a boolean certificate (groupb, chainb, proved '
               'sufficient) evaluated per pattern. Tie: real ISMAGS runs (sessions sharing a symmetry cache) on exhaustive '
               'small and generated graphs; outputs compared with the model run on the constraints the implementation '
-              'derived, certificates checked, and outputs judged by the proved checkers. Not proved: analyze_symmetry '
-              'itself (its output is certified per pattern), the look-ahead filter, and the shrinking search of '
-              'largest_common_subgraph (judged per input by the checkers).'),
+              'derived, certificates checked, and outputs judged by the proved checkers. (4) the look-ahead filter never removes a '
+              'solution, so the search started from the filtered candidates is still sound and complete; (5) the shrinking search '
+              'for the largest common sub-graph without symmetry returns only common induced sub-graphs of one size, none larger '
+              'exists, and every one of that size is returned (levels = all node sets of a size, pigeon-hole against the graph size). '
+              'Not proved: analyze_symmetry itself (its output is certified per pattern) and the shrinking search WITH symmetry '
+              '(judged per input by the proved checker).'),
         design_ref='DESIGN.md section 5, C06',
         note=('Trusted: Coq kernel + vm_compute; networkx only as a graph container; the reference enumeration is exponential '
               '(patterns <= 6 nodes, graphs <= 7 nodes in the correspondence).'),
